@@ -66,6 +66,28 @@ def register(reg):
             decreases="n - it_i")],
         props=("C06",), exc_props={"ValueError": ("C06", "C17"), "*": ("C06", "C17")}))
 
+    # F17 ---------------------------------------------------------------- cache_step.wrapped_fn
+    # generic in the wrapped function: FNV(n, s) is its value (an opaque id), FNR(n, s) says it raises
+    reg.spec_function("FNV", ["int", "int"], "int")
+    reg.spec_function("FNR", ["int", "int"], "bool")
+    reg.add(Contract("mixed.fn", params=[("n", "int"), ("s", "int")], pure=True, returns="int",
+                     raises=[("Exception", "FNR(n, s)")], result_expr="FNV(n, s)", ensures=[], frame=[],
+                     assumed=True, note="the wrapped function of cache_step, abstractly: a deterministic "
+                                        "function of (n, s) that may raise", props=("C15",)))
+    CACHE_OK = ("forall_int(lambda a, b: implies((a, b) in _cache, _cache[(a, b)] == FNV(a, b) and not FNR(a, b)))")
+    reg.add(Contract(
+        "mixed.cache_step.<locals>.wrapped_fn", params=[("n", "int"), ("s", "int")],
+        closure={"_cache": "map2"},
+        requires=[("cache_invariant", CACHE_OK)],
+        raises=[("Exception", "FNR(n, min(s, n - 1))")],
+        returns="int",
+        ensures=[("result_is_the_function_value_at_clamped_s", "result == FNV(n, min(s, n - 1))"),
+                 ("result_independent_of_cache_content", "True"),
+                 ("cache_invariant", CACHE_OK),
+                 ("cache_only_grows", "forall_int(lambda a, b: implies((a, b) in old(_cache), "
+                                      "(a, b) in _cache and _cache[(a, b)] == old(_cache)[(a, b)]))")],
+        frame=[], props=("C15", "C05", "C06"), exc_props={"Exception": ("C15",), "*": ("C15",)}))
+
     # F17/F21 as seen by callers: wrapped_fn(n, s) = fn(n, min(s, n - 1)), memoised
     reg.add(Contract(
         "mixed.mixed_step_memoization#wrapped", params=[("n", "int"), ("s", "int")],
